@@ -26,7 +26,10 @@ def execute(spec):
     case, impls, skip = execute_group(spec, ("win", "agg"))
     if skip:
         return {"skip": skip}
-    return {"fam": spec["fam"], "case": case, "impl": {"win": impls["win"], "agg": impls["agg"]}}
+    w = {"fam": spec["fam"], "case": case, "impl": {"win": impls["win"], "agg": impls["agg"]}}
+    if c12._ARGS_CHANGED:
+        w["py_fail"] = "judged in Python: " + c12._ARGS_CHANGED[0]
+    return w
 
 
 def generate(rng, tier):
